@@ -239,6 +239,12 @@ class Impl:
             g = factory_create(op["alg"], op["N"])
             self.grids.append(g)
             return {"handle": len(self.grids) - 1, "created": np.array(g.grid, dtype=np.float64)}
+        if t == "gen":
+            # the grid array alone (same _gen_grid code path as the factory, no Voronoi object): for grid sizes whose
+            # Voronoi construction would be too slow
+            from molgri.space import rotobj
+            cls = {"randomS": rotobj.RandomSRotations, "randomQ": rotobj.RandomQRotations}[op["alg"]]
+            return {"unit": None, "created": np.array(cls(N=op["N"])._gen_grid(), dtype=np.float64)}
         if t == "get":
             if op["h"] >= len(self.grids):
                 return {"err": "other:NoObject"}
@@ -816,6 +822,46 @@ def ref_history(qs, policy, salt):
     return {"r0": [salt % 1000, policy], "ops": ops}
 
 
+def internal_point_counts(limit=20000, maxn=6):
+    """the literal sizes of the random point sets the package draws internally (dense helper points, defaults): integer
+    arguments / integer defaults of random_quaternions and random_sphere_points, read from the package source NOW"""
+    import ast
+    import molgri
+    names = {"random_quaternions", "random_sphere_points"}
+    found = set()
+    for f in sorted(Path(molgri.__file__).resolve().parent.rglob("*.py")):
+        try:
+            tree = ast.parse(f.read_text())
+        except (SyntaxError, UnicodeDecodeError, OSError):
+            continue
+        for node in ast.walk(tree):
+            if isinstance(node, ast.Call):
+                fn = node.func
+                nm = fn.id if isinstance(fn, ast.Name) else (fn.attr if isinstance(fn, ast.Attribute) else None)
+                if nm in names:
+                    for a in list(node.args[:1]) + [k.value for k in node.keywords if k.arg == "n"]:
+                        if isinstance(a, ast.Constant) and isinstance(a.value, int) and not isinstance(a.value, bool):
+                            found.add(a.value)
+            elif isinstance(node, ast.FunctionDef) and node.name in names:
+                for d in node.args.defaults:
+                    if isinstance(d, ast.Constant) and isinstance(d.value, int) and not isinstance(d.value, bool):
+                        found.add(d.value)
+    # the sizes that dense helper sets use (largest) first
+    return sorted((n for n in found if 4 <= n <= limit), reverse=True)[:maxn]
+
+
+def collision_histories(sizes):
+    """Two whole-process histories for two fresh interpreters: random grids whose N coincides with the size of a point set
+    that the package draws internally, in both orders relative to the first approximate getter of each dimension.
+    Only the arrays of the large grids are read (`gen`); the approximate getters are read on small grids."""
+    small = [{"t": "grid", "alg": "ico", "N": 20}, {"t": "get", "h": 0, "g": "volumesApprox"}, {"t": "get", "h": 0, "g": "hulls"},
+             {"t": "grid", "alg": "cube4D", "N": 8}, {"t": "get", "h": 1, "g": "volumes"}, {"t": "get", "h": 1, "g": "hulls"},
+             {"t": "grid", "alg": "randomS", "N": 9}, {"t": "get", "h": 2, "g": "volumesApprox"}]
+    big = [{"t": "gen", "alg": a, "N": n} for n in sizes for a in ("randomS", "randomQ")]
+    after = [{"t": "regen", "h": 0}, {"t": "get", "h": 0, "g": "volumesApprox"}, {"t": "regen", "h": 1}, {"t": "get", "h": 1, "g": "volumes"}]
+    return [{"r0": [7, 0], "ops": big + small + after}, {"r0": [8, 0], "ops": small + big + after}]
+
+
 def exec_process_history(h, op_limit):
     """in a reference interpreter: run the history without any observation of object state; -> observations"""
     start_state(h)
@@ -920,6 +966,8 @@ def observations(h, ex):
         elif t in ("nodes", "half") and op["h"] < len(polys):
             k, l = polys[op["h"]]
             obs.append((f"poly:{k}@{l}:{poly_sub(t, op['N'], op['proj'])}", val or hb(r["pts"]), i))
+        elif t == "gen":
+            obs.append((f"{op['alg']}_{op['N']}:create", val or hb(r["created"]), i))
         elif t == "grid":
             obs.append((f"{op['alg']}_{op['N']}:create", val or hb(r["created"]), i))
             if "handle" in r:
@@ -1076,6 +1124,13 @@ def oracle_histories(ctx, hist, execs, refs, ref_hists=(), ref_timeouts=(), mini
             table.setdefault(key, []).append((val, src))
     reported = 0
     pairs = 0
+    found = []          # emitted at the end, shortest replay first
+
+    class _Collect:
+        @staticmethod
+        def fail(key, what, case, expected=None, observed=None):
+            found.append((len(json.dumps(case, default=str)), len(found), key, what, case, expected, observed))
+    real_ctx, ctx_f = ctx, _Collect
     for key in sorted(table):
         vals = table[key]
         distinct = sorted({v for v, _ in vals})
@@ -1086,15 +1141,16 @@ def oracle_histories(ctx, hist, execs, refs, ref_hists=(), ref_timeouts=(), mini
         in_hist = [(v, s) for v, s in vals if s[0] == "history"]
         if len({v for v, _ in in_refs}) > 1:
             # two fresh processes that ran different histories disagree: the replay is the pair of histories
-            va, sa = in_refs[0]
-            vb, sb = next((v, s) for v, s in in_refs if v != va)
+            # the two disagreeing observations that come earliest in their processes (shortest replay)
+            va, sa = min(in_refs, key=lambda x: x[1][2])
+            vb, sb = min(((v, s) for v, s in in_refs if v != va), key=lambda x: x[1][2])
             case = pair_case(key, ref_hists[sa[1]], sa[2], ref_hists[sb[1]], sb[2])
             if minimise and pairs < 2:
                 case, wa, wb = shrink_pair(case, ctx.op_limit)
                 if wa is not None:
                     va, vb = wa, wb
             pairs += 1
-            ctx.fail(f"C08:{key}", f"{key}: two fresh processes that ran different histories return different bits "
+            ctx_f.fail(f"C08:{key}", f"{key}: two fresh processes that ran different histories return different bits "
                      f"(op {case['a']['focus']} of history a, op {case['b']['focus']} of history b)", case, expected=va, observed=vb)
             continue
         # every fresh process agrees (or there is none): expected = their value, else the most frequent
@@ -1109,9 +1165,11 @@ def oracle_histories(ctx, hist, execs, refs, ref_hists=(), ref_timeouts=(), mini
                 # not reproducible by this history alone (depends on what this process did before): give the pair
                 sa = in_refs[0][1]
                 case = pair_case(key, ref_hists[sa[1]], sa[2], h, s[2], where_b="this process, after other histories")
-        ctx.fail(f"C08:{key}", f"{key}: value depends on the history (differs bitwise from "
+        ctx_f.fail(f"C08:{key}", f"{key}: value depends on the history (differs bitwise from "
                  f"{'a fresh process' if in_refs else 'other histories'})", case, expected=expected, observed=v)
         reported += 1
+    for _, _, k, what, case, exp, obs_ in sorted(found, key=lambda x: x[:2]):
+        real_ctx.fail(k, what, case, expected=exp, observed=obs_)
     return table
 
 
@@ -1335,6 +1393,10 @@ def run(ctx):
     nproc = 4 if ctx.quick else 6
     procs = start_refs(qs, nproc, [1, 2, 3, 4242, 5, 6], ctx.op_limit, copies=2)
     extra = start_refs(qs, 3, [11, 12, 13], ctx.op_limit, copies=1, first_policy=2) if not ctx.quick else []
+    sizes = internal_point_counts()
+    ctx.extra_cov["internal_point_set_sizes_found_in_source"] = sizes
+    for k, h in enumerate(collision_histories(sizes)):
+        extra.append((spawn_ref(h, [21, 22][k], ctx.op_limit), str([21, 22][k]), h))
     try:
         try:
             tables = Tables(lm, ctx.op_limit)
